@@ -37,6 +37,7 @@ class Canon:
         # path environment: (id(frame), local name) -> constant ast node, set by
         # walkers that follow one path (string/bool locals such as `pool`)
         self.penv = {}
+        self._comp_env = []
 
     def class_name(self, name):
         c = self.repo.classes.get(name)
@@ -249,6 +250,9 @@ class Canon:
                 ex, fr = frame.binding[e.id]
                 return self.p(ex, fr if fr is not None else Frame(frame.func), d, seen)
             key = (id(frame.func.node), e.id)
+            for env in reversed(self._comp_env):
+                if key in env:
+                    return env[key]
             if key in seen:
                 return e.id
             defs = assigned_names(frame.func).get(e.id)
@@ -281,28 +285,7 @@ class Canon:
                 elif isinstance(n, ast.AugAssign):
                     alts.add('aug(%s)' % self.p(n.value, frame, d, s2))
                 elif isinstance(n, (ast.For, ast.AsyncFor, ast.comprehension)):
-                    it = n.iter
-                    if isinstance(n.target, ast.Name):
-                        alts.add(_elem_of(self._iter_p(it, frame, d, s2)))
-                    elif isinstance(n.target, ast.Tuple) and len(n.target.elts) == 2 and isinstance(
-                            it, ast.Call) and isinstance(it.func, ast.Attribute) and it.func.attr == 'items' \
-                            and not it.args and all(isinstance(x, ast.Name) for x in n.target.elts):
-                        D = self.p(it.func.value, frame, d, s2)
-                        if n.target.elts[0].id == e.id:
-                            alts.add('elem(%s)' % D)
-                        else:
-                            alts.add('%s[elem(%s)]' % (D, D))
-                    elif isinstance(n.target, ast.Tuple) and isinstance(it, ast.Call) and isinstance(
-                            it.func, ast.Name) and it.func.id == 'enumerate' and len(it.args) == 1 and \
-                            len(n.target.elts) == 2 and isinstance(n.target.elts[1], ast.Name) and \
-                            n.target.elts[1].id == e.id:
-                        alts.add('elem(%s)' % self.p(it.args[0], frame, d, s2))
-                    elif isinstance(n.target, (ast.Tuple, ast.List)) and all(
-                            isinstance(x, ast.Name) for x in n.target.elts):
-                        j = [x.id for x in n.target.elts].index(e.id)
-                        alts.add('%s[%d]' % (_elem_of(self._iter_p(it, frame, d, s2)), j))
-                    else:
-                        alts.add('elem.part(%s)' % self.p(it, frame, d, s2))
+                    alts.add(self._target_p(n.target, n.iter, e.id, frame, d, s2))
                 elif isinstance(n, ast.AnnAssign) and n.value is not None:
                     alts.add(self.p(n.value, frame, d, s2))
                 else:
@@ -340,16 +323,30 @@ class Canon:
             if src is not None:
                 return self.p(src, frame, d, seen)
             g = e.generators[0]
-            conds = ''.join(' if ' + self.p(c, frame, d, seen) for c in g.ifs)
-            kind = 'set' if isinstance(e, ast.SetComp) else 'seq'
-            return '%s[%s for %s%s]' % (kind, self.p(e.elt, frame, d, seen),
-                                        self._iter_p(g.iter, frame, d, seen), conds)
+            self._comp_bind(e.generators, frame, d, seen)
+            try:
+                conds = ''.join(' if ' + self.p(c, frame, d, seen) for c in g.ifs)
+                kind = 'set' if isinstance(e, ast.SetComp) else 'seq'
+                return '%s[%s for %s%s]' % (kind, self.p(e.elt, frame, d, seen),
+                                            self._iter_p(g.iter, frame, d, seen), conds)
+            finally:
+                self._comp_env.pop()
         if isinstance(e, ast.DictComp) and len(e.generators) == 1:
             g = e.generators[0]
-            conds = ''.join(' if ' + self.p(c, frame, d, seen) for c in g.ifs)
-            return 'map[%s: %s for %s%s]' % (self.p(e.key, frame, d, seen), self.p(e.value, frame, d, seen),
-                                             self._iter_p(g.iter, frame, d, seen), conds)
+            self._comp_bind(e.generators, frame, d, seen)
+            try:
+                conds = ''.join(' if ' + self.p(c, frame, d, seen) for c in g.ifs)
+                return 'map[%s: %s for %s%s]' % (self.p(e.key, frame, d, seen), self.p(e.value, frame, d, seen),
+                                                 self._iter_p(g.iter, frame, d, seen), conds)
+            finally:
+                self._comp_env.pop()
         if isinstance(e, ast.Call):
+            if isinstance(e.func, ast.Name) and e.func.id == 'dict' and len(e.args) == 1 and not e.keywords \
+                    and isinstance(e.args[0], ast.Call) and isinstance(e.args[0].func, ast.Name) \
+                    and e.args[0].func.id == 'zip' and len(e.args[0].args) == 2:
+                zm = zip_map(self.p(e.args[0].args[0], frame, d, seen), self.p(e.args[0].args[1], frame, d, seen))
+                if zm is not None:
+                    return zm
             src = copy_source(e, order=True)
             if src is not None:
                 return self.p(src, frame, d, seen)
@@ -409,6 +406,38 @@ class Canon:
             return ast.unparse(e)
         except Exception:
             return '<expr>'
+
+    def _target_p(self, target, it, name, frame, d, s2):
+        """provenance of the loop / comprehension variable `name` bound by `target in it`"""
+        if isinstance(target, ast.Name):
+            return _elem_of(self._iter_p(it, frame, d, s2))
+        if isinstance(target, ast.Tuple) and len(target.elts) == 2 and isinstance(
+                it, ast.Call) and isinstance(it.func, ast.Attribute) and it.func.attr == 'items' \
+                and not it.args and all(isinstance(x, ast.Name) for x in target.elts):
+            D = self.p(it.func.value, frame, d, s2)
+            if target.elts[0].id == name:
+                return 'elem(%s)' % D
+            return '%s[elem(%s)]' % (D, D)
+        if isinstance(target, ast.Tuple) and isinstance(it, ast.Call) and isinstance(
+                it.func, ast.Name) and it.func.id == 'enumerate' and len(it.args) == 1 and \
+                len(target.elts) == 2 and isinstance(target.elts[1], ast.Name) and \
+                target.elts[1].id == name:
+            return 'elem(%s)' % self.p(it.args[0], frame, d, s2)
+        if isinstance(target, (ast.Tuple, ast.List)) and all(
+                isinstance(x, ast.Name) for x in target.elts):
+            j = [x.id for x in target.elts].index(name)
+            return '%s[%d]' % (_elem_of(self._iter_p(it, frame, d, s2)), j)
+        return 'elem.part(%s)' % self.p(it, frame, d, s2)
+
+    def _comp_bind(self, gens, frame, d, seen):
+        """push the provenance of the variables bound by comprehension generators"""
+        env = {}
+        self._comp_env.append(env)
+        for g in gens:
+            for x in ast.walk(g.target):
+                if isinstance(x, ast.Name):
+                    env[(id(frame.func.node) if frame is not None else 0, x.id)] = \
+                        self._target_p(g.target, g.iter, x.id, frame, d, seen)
 
     def _iter_p(self, it, frame, d, seen):
         """provenance of an iterable; D.items() / D.keys() iterate D"""
@@ -609,6 +638,46 @@ def _elem_of(it):
     if m and ' for ' not in m.group(2):
         return m.group(1)
     return 'elem(%s)' % it
+
+
+def split_seq(s):
+    """'seq[E for I if C]' -> (E, I, C or '') by bracket depth; None otherwise"""
+    if not (s.startswith('seq[') and s.endswith(']')) or _match(s, 3) != len(s) - 1:
+        return None
+    body = s[4:-1]
+    depth = 0
+    cut = []
+    i = 0
+    while i < len(body):
+        ch = body[i]
+        if ch in '([{':
+            depth += 1
+        elif ch in ')]}':
+            depth -= 1
+        elif depth == 0 and body.startswith(' for ', i) and not cut:
+            cut.append(i)
+        elif depth == 0 and cut and body.startswith(' if ', i) and len(cut) == 1:
+            cut.append(i)
+        i += 1
+    if not cut:
+        return None
+    if len(cut) == 1:
+        return body[:cut[0]], body[cut[0] + 5:], ''
+    return body[:cut[0]], body[cut[0] + 5:cut[1]], body[cut[1]:]
+
+
+def zip_map(pa, pb):
+    """dict(zip(seq[K for D], seq[V for D.values()])) is map[K: V' for D] with the value
+    variable rewritten to D[elem(D)]; same for two sequences over one iterable."""
+    a, b = split_seq(pa), split_seq(pb)
+    if a is None or b is None or a[2] or b[2]:
+        return None
+    if b[1] == a[1]:
+        return 'map[%s: %s for %s]' % (a[0], b[0], a[1])
+    if b[1] == a[1] + '.values()':
+        v = b[0].replace('elem(%s.values())' % a[1], '%s[elem(%s)]' % (a[1], a[1]))
+        return 'map[%s: %s for %s]' % (a[0], v, a[1])
+    return None
 
 
 class ProvCanon(Canon):
